@@ -265,11 +265,16 @@ class ChoiceRandom(_pyrandom.Random):
 
 
 def _random_pair(args):
-    a, b = args
+    a, b = args[:2]
+    form = args[2] if len(args) > 2 else 'int'
     from bardolph.runtime import bardolph_math
     w = world.World(world.POP_ONE)
-    text = 'print [random %s %s]' % (render.num_text(a) if a >= 0 else '-' + render.num_text(-a),
-                                     render.num_text(b) if b >= 0 else '-' + render.num_text(-b))
+    if form == 'int':
+        text = 'print [random %s %s]' % (render.num_text(a) if a >= 0 else '-' + render.num_text(-a),
+                                         render.num_text(b) if b >= 0 else '-' + render.num_text(-b))
+    else:
+        # the same bounds as whole numbers that are floats: the result of a division, a literal with a decimal point
+        text = 'print [random {%d / 2} {%d + 0.0}]' % (2 * a, b)
     seen = {}
     execs = 0
     saved = bardolph_math.py_random
@@ -355,9 +360,10 @@ def run(tier, seed):
     for r in bres:
         merge(r['viol'])
     pairs = [(a, b) for a in range(-3, 9) for b in range(a, 9)]
+    pairs += [(a, b, 'float') for a in range(-1, 4) for b in range(a, 4)]
     rres = par.run_tasks(_random_pair, pairs)
     rexec = sum(r[0] for r in rres)
-    for (a, b), (execs, ngot, bad) in zip(pairs, rres):
+    for pr, (execs, ngot, bad) in zip(pairs, rres):
         if bad:
             merge({bad[0]: [1, bad[1], bad[2]]})
     from . import concur
